@@ -122,7 +122,8 @@ class SelectableIcon(Text):
             maxcol, _ = self.pack()
         trans = self.get_line_translation(maxcol)
         x, y = calc_coords(self.text, trans, self._cursor_position)
-        if maxcol <= x:
+        if not 0 <= x < maxcol:
+            # clipped away on the right - or on the left (right / centre aligned, wrap='clip')
             return None
         return x, y
 
